@@ -70,7 +70,7 @@ func (in *Interp) Explore(cfg ExploreConfig) *ExploreResult {
 		cfg.Solver = "z3"
 	}
 	if cfg.TimeoutMs <= 0 {
-		cfg.TimeoutMs = 20000
+		cfg.TimeoutMs = 60000
 	}
 	cfg.sampled = new(int)
 	t0 := time.Now()
